@@ -26,6 +26,8 @@ statement in Witness.lean (`load_atomic_old_code_fails`).
 import CaddyModel.C01.Witness
 import CaddyModel.C03.LemmasP
 import CaddyModel.C01.GenTie
+import CaddyModel.C01.StdProps
+import CaddyModel.C01.StdHistory
 
 namespace CaddyModel.C01
 open CaddyModel.Lifecycle
